@@ -211,13 +211,26 @@ Definition get_map (s : stack) (p : bytes) : option (list (bytes * val)) :=
   | Some (VMapS m) => Some (map (fun kv => (fst kv, VStr (snd kv))) m)
   | _ => None
   end.
-(* ForEach: sequences in index order; maps in unspecified order, observed as the sorted
-   multiset of printed values *)
+(* ForEach: sequences in index order; maps in the order of their printed keys (stack.go:ForEach
+   sorts rv.MapKeys() by fmt.Sprint); [for_each_map] is the older order-blind observation *)
 Fixpoint ins_b (x : bytes) (l : list bytes) : list bytes :=
   match l with [] => [x] | y :: r => if bytes_leb x y then x :: l else y :: ins_b x r end.
 Definition sort_b (l : list bytes) : list bytes := fold_right ins_b [] l.
+(* keys of a map as ForEach orders them: by fmt.Sprint of the key, compared as byte strings *)
+Definition map_items (v : val) : option (list (bytes * val)) :=
+  match v with
+  | VMap m => Some m
+  | VMapS m => Some (map (fun kv => (fst kv, VStr (snd kv))) m)
+  | VMapI m => Some (map (fun kv => (dec_Z (fst kv), snd kv)) m)
+  | _ => None
+  end.
+Definition for_each_val (v : val) : list val :=
+  match v with
+  | VList l | VArr l => l
+  | _ => match map_items v with Some m => map snd (sort_kv m) | None => [] end
+  end.
 Definition for_each (s : stack) (p : bytes) : list val :=
-  match resolve s p with Some (VList l) | Some (VArr l) => l | _ => [] end.
+  match resolve s p with Some v => for_each_val v | None => [] end.
 Definition for_each_map (s : stack) (p : bytes) : option (list bytes) :=
   match resolve s p with
   | Some (VMap m) => Some (sort_b (map (fun kv => show_obs (obs_of_val (snd kv))) m))
